@@ -27,7 +27,7 @@ MC_FinalEn == {}
 MC_SingValues == {}
 MC_Want == {"V"}
 MC_WantD == {"D"}
-MC_WantDV == {"D", "V"}
+MC_WantDV == {"D", "V", "V3"}
 MC_WantH == {"D", "H", "V"}
 MC_NoPR(o) == <<>>
 ASSUME PrintT(<<"BASE", BaseCalls, BaseHeap, AllNames, SliceTab>>)
